@@ -110,6 +110,19 @@ func TestC04Proc(t *testing.T) {
 				exp = append(exp, beh{name: "started-only " + how, marker: true, maxKillMs: 30000})
 			}
 		}
+		// the application built the command with exec.CommandContext and a polite Cancel hook (SIGTERM): a plugin that does
+		// not exit on its own is still force-killed
+		for _, b0 := range []beh{{"frozen", 0, []string{"sigstop"}, false, 60000}, {"exits-at-once", 0, nil, true, 30000}} {
+			ops := append([]string{"new", "start", "client", "dispense", "set:1"}, b0.pre...)
+			ops = append(ops, "kill", "proc?")
+			cells = append(cells, Cell{
+				Name:   fmt.Sprintf("%s launch=cmd plugin=%s, command built with CommandContext and Cancel=SIGTERM", proto, b0.name),
+				Plugin: PluginConf{CookieKey: cookieKey, CookieValue: cookieVal, Legacy: 1, LegacyProto: proto, GRPCServer: true, TLS: "none", ExitMarker: "auto", ExitDelayMs: b0.delayMs},
+				Host:   HostConf{Allowed: []string{"netrpc", "grpc"}, TLS: "none", Launch: "cmd", Legacy: 1, SkipHostEnv: true, CmdCancel: "sigterm"},
+				Ops:    ops,
+			})
+			exp = append(exp, b0)
+		}
 		// the application had preset Cmd.Stdin to a reader that stays open and silent (the read end of an io.Pipe)
 		for _, b0 := range []beh{{"exits-at-once", 0, nil, true, 30000}, {"ignores-shutdown", 60000, nil, false, 30000}, {"already-crashed", 0, []string{"sigkillplugin"}, false, 30000}} {
 			ops := append([]string{"new", "start", "client", "dispense", "set:1"}, b0.pre...)
